@@ -40,8 +40,7 @@ pub fn differential<Int: Clone + NumAssign + Integer + From<i32>>(
 
 pub fn poly_of_mod<Int: Clone + NumAssign + Integer>(f: &Polynomial<Int>, a: &Int, p: &Int) -> Int {
     let mut sum = Int::zero();
-    let deg = f.deg();
-    for i in (0..deg + 1).rev() {
+    for i in (0..f.dat.len()).rev() {
         sum *= a.clone();
         sum += f.coef_at(i);
         sum %= p.clone();
